@@ -1,6 +1,9 @@
 from typing import TYPE_CHECKING
+from typing import Optional
 
+from clikit.api.args import Args
 from clikit.api.args.raw_args import RawArgs
+from clikit.api.command import CommandCollection
 from clikit.api.resolver import ResolvedCommand
 from clikit.args.argv_args import ArgvArgs
 
@@ -43,6 +46,36 @@ class HelpResolver(DefaultResolver):
             result = ResolveResult(result.command, result.raw_args)
 
             return super(HelpResolver, self).create_resolved_command(result)
+        except ValueError:
+            # The help page of a command does not depend on the values given
+            # on the line: a value that cannot be converted must not keep the
+            # page from being shown
+            return ResolvedCommand(
+                result.command, Args(result.command.args_format, result.raw_args)
+            )
         finally:
             if not was_lenient:
                 config.disable_lenient_args_parsing()
+
+    def process_default_commands(
+        self, args, default_commands
+    ):  # type: (RawArgs, CommandCollection) -> Optional[ResolveResult]
+        first_result = None
+
+        for default_command in default_commands:
+            resolved_command = ResolveResult(default_command, args)
+
+            try:
+                parsable = resolved_command.is_parsable()
+            except ValueError:
+                # A value that cannot be converted: not the command to explain,
+                # unless no other default command takes the line
+                parsable = False
+
+            if parsable:
+                return resolved_command
+
+            if not first_result:
+                first_result = resolved_command
+
+        return first_result
